@@ -5,6 +5,7 @@ package main
 
 import (
 	kit "go.amzn.com/lambda/zzverif/verifkit"
+	"strconv"
 
 	"encoding/json"
 	"fmt"
@@ -30,11 +31,11 @@ func TestMain(m *testing.M) {
 type HostRun struct {
 	Trace    *Trace
 	ExitCode int
-	Died     bool   // the host ended without a complete trace (panic, fatal signal, os.Exit from emulator code)
-	TimedOut bool   // wall budget exceeded: host was killed by the parent
-	Infra    string // non-empty: the run says nothing about the emulator (port clash, spawn failure)
-	Stderr   string // tail
-	Dump     string // goroutine dump when timed out
+	Died     bool     // the host ended without a complete trace (panic, fatal signal, os.Exit from emulator code)
+	TimedOut bool     // wall budget exceeded: host was killed by the parent
+	Infra    string   // non-empty: the run says nothing about the emulator (port clash, spawn failure)
+	Stderr   string   // tail
+	Dump     string   // goroutine dump when timed out
 	Races    []string // race-detector build only: data races on Go maps inside emulator code (they can crash the process)
 	WallMs   int64
 }
@@ -53,11 +54,25 @@ func workDir() string {
 func runHost(sc *Scenario) *HostRun {
 	for attempt := 0; ; attempt++ {
 		r := runHostOnce(sc)
+		// A starved host says nothing about the emulator: scenarios order things with pauses of 15-80 ms and rules compare
+		// times with tolerances of that size. The wake-up lag of a 1 ms sleeper inside the host is at most ~25 ms when one
+		// check runs on this machine (p99 20 ms); the false alarms seen with three checks running at once all had 55-310 ms.
+		// Such a run is repeated, and counted as inconclusive if it stays that way.
+		if r.Infra == "" && r.Trace != nil && r.Trace.MaxLagMs > hostLagLimit() && os.Getenv("VERIF_RACE") == "" {
+			r.Infra = fmt.Sprintf("host starved: wake-up lag %.0f ms (limit %.0f)", r.Trace.MaxLagMs, hostLagLimit())
+		}
 		if r.Infra != "" && attempt < 3 {
 			continue
 		}
 		return r
 	}
+}
+
+func hostLagLimit() float64 {
+	if v, err := strconv.ParseFloat(os.Getenv("VERIF_LAG_LIMIT_MS"), 64); err == nil && v > 0 {
+		return v
+	}
+	return 50
 }
 
 func runHostOnce(sc *Scenario) *HostRun {
